@@ -14,7 +14,7 @@ std::string fmt_double(double v) { char b[40]; snprintf(b, sizeof b, "%.17g", v)
 void EngineCfg::to_json(J &j) const {
   j["walker"] = walker; j["n_walkers"] = n_walkers; j["natoms"] = natoms; j["data_seed"] = (long long)data_seed;
   j["pbc"] = pbc; j["box"] = box; j["dt"] = dt; j["temperature"] = temperature; j["forces_late"] = forces_late;
-  j["traj_amp"] = traj_amp; j["force_amp"] = force_amp; j["restart_freq"] = restart_freq; j["binary_state"] = binary_state;
+  j["traj_amp"] = traj_amp; j["force_amp"] = force_amp; j["restart_freq"] = restart_freq; j["binary_state"] = binary_state; j["setup_each_run"] = setup_each_run;
   j["smp"] = smp; j["threads"] = threads; j["closed_loop"] = closed_loop; j["frozen"] = frozen; j["noise_seed"] = (long long)noise_seed;
   if (!out_prefix.empty()) j["out_prefix"] = out_prefix;
   if (!restart_prefix.empty()) j["restart_prefix"] = restart_prefix;
@@ -26,7 +26,7 @@ void EngineCfg::from_json(J const &j) {
   pbc = j.at("pbc").as_bool(d.pbc); box = j.at("box").as_num(d.box); dt = j.at("dt").as_num(d.dt);
   temperature = j.at("temperature").as_num(d.temperature); forces_late = j.at("forces_late").as_bool(d.forces_late);
   traj_amp = j.at("traj_amp").as_num(d.traj_amp); force_amp = j.at("force_amp").as_num(d.force_amp);
-  restart_freq = (int)j.at("restart_freq").as_int(d.restart_freq); binary_state = j.at("binary_state").as_bool(d.binary_state);
+  restart_freq = (int)j.at("restart_freq").as_int(d.restart_freq); binary_state = j.at("binary_state").as_bool(d.binary_state); setup_each_run = j.at("setup_each_run").as_bool(d.setup_each_run);
   smp = j.at("smp").as_bool(d.smp); threads = (int)j.at("threads").as_int(d.threads);
   closed_loop = j.at("closed_loop").as_bool(d.closed_loop); frozen = j.at("frozen").as_bool(d.frozen);
   noise_seed = (uint64_t)j.at("noise_seed").as_int((long long)d.noise_seed);
@@ -384,6 +384,11 @@ int Engine::run(int n, bool graceful_end) {
       set_output_prefix(cfg.out_prefix);
       set_restart_output_prefix(cfg.restart_prefix);
       set_default_restart_frequency(cfg.restart_freq);
+      if (cfg.setup_each_run) {
+        // LAMMPS calls its proxy's setup() at every run: engine parameters, pending input, output
+        colvars->update_engine_parameters();
+        colvars->setup_input();
+      }
       colvars->setup_output();
     } else {
       colvars->it++;
